@@ -18,10 +18,18 @@ def job(j):
     from qlasskit.decompiler import Decompiler, circuit_boolean_optimizer
 
     out = []
-    for gs in j["strings"]:
+    todo = [(gs, False) for gs in j["strings"]]
+    if j["prop"] == "C11" and j["strings"]:
+        todo.append((j["strings"][0], True))   # the same string followed by a gate on a qubit the circuit does not have
+    for gs, oob in todo:
         nq = j["nq"]
         qc = GT.build_circuit(gs, nq)
-        c = {"key": key_of(gs), "nq": nq, "exc": ""}
+        c = {"key": key_of(gs) + ("+oob" if oob else ""), "nq": nq, "exc": ""}
+        if oob:
+            try:
+                qc.x(nq)
+            except Exception:
+                continue    # refused: nothing to decompile
         if j["prop"] == "C11":
             c["gates"] = ser.ser_gates(qc.gates)
             c["names"] = [f"q{i}" for i in range(nq)]
